@@ -535,7 +535,7 @@ Render(path, key, snap) ==
   CASE path = "account"    -> [ok |-> TRUE, v |-> IF key \in DOMAIN snap.accts THEN snap.accts[key] ELSE EmptyAcct]
     [] path = "delegatee"  -> IF key \in DOMAIN snap.delegs THEN [ok |-> TRUE, v |-> snap.delegs[key]] ELSE [ok |-> FALSE]
     [] path = "reward"     -> IF key \in DOMAIN snap.rewards THEN [ok |-> TRUE, v |-> snap.rewards[key]] ELSE [ok |-> FALSE]
-    [] path = "gov_params" -> [ok |-> TRUE, v |-> snap.gov]
+    [] path = "gov_params" -> IF snap.govLedger.some THEN [ok |-> TRUE, v |-> snap.govLedger.v] ELSE [ok |-> FALSE]
     [] path = "stakes/total_power" -> [ok |-> TRUE, v |-> BondedPower(snap)]
     [] OTHER -> [ok |-> FALSE]
 
@@ -563,6 +563,25 @@ C19Commit(e, pre) ==
       \cup If(c.delegs # pre.delegs, "C19: delegatees returned by queries differ from what the block committed")
       \cup If(c.rewards # pre.rewards, "C19: rewards returned by queries differ from what the block committed")
       \cup If(c.props # pre.props \/ c.fprops # pre.fprops, "C19: proposals returned by queries differ from what the block committed")
+  ELSE {}
+
+---------------------------------------------------------------------------
+(* C07 - restart (single-replica part: the restarted process reports the    *)
+(* last commit and has rebuilt every piece of state that influences         *)
+(* execution; the two-replica comparison is ReplicasTrace.tla)              *)
+
+PowSet(l) == {<<l[i].v, l[i].pow>> : i \in 1..Len(l)}
+
+C07(e, pre, post, mon) ==
+  IF e.ev = "Restart" THEN
+      If(e.resp.h # pre.lastH \/ e.resp.hash # mon.lastHash, "C07: after a restart the node does not report the height and application hash of its last commit")
+      \cup If(~SameAccts(pre, post) \/ pre.delegs # post.delegs \/ pre.frozen # post.frozen \/ pre.rewards # post.rewards
+                \/ pre.props # post.props \/ pre.fprops # post.fprops,
+              "C07: ledger contents visible to block execution differ after a restart (something was only in memory)")
+      \cup If(pre.gov # post.gov, "C07: the active governance parameters differ after a restart")
+      \cup If(PowSet(pre.vol.lastVals) # PowSet(post.vol.lastVals), "C07: the validator set last reported to consensus is not rebuilt after a restart")
+      \cup If(pre.vol.rwdHash # post.vol.rwdHash \/ pre.vol.evmRoot # post.vol.evmRoot \/ pre.vol.evmHeight # post.vol.evmHeight,
+              "C07: reward-hash component or EVM root/height differ after a restart")
   ELSE {}
 
 ---------------------------------------------------------------------------
